@@ -20,6 +20,16 @@ impl Statement {
 //@   props C07
 //@ end
 }
+impl Type {
+//@ fn sylt-compiler/src/name_resolution.rs span
+//@   in Type
+//@   props C07
+//@ end
+//@ fn sylt-compiler/src/name_resolution.rs is_void
+//@   in Type
+//@   mode assumed
+//@ end
+}
 
 // ---- phase contracts between the resolver and the type checker (shared by U-RESOLVE and U-TC) ----
 /// no declaration statement (blob / enum / external) anywhere in a resolved tree: the type
@@ -179,6 +189,93 @@ pub proof fn lemma_s_below_mono(s: Statement, n: int, m: int)
             assert forall|i: int| 0 <= i < statements.len() implies s_below(#[trigger] statements[i], m) by { lemma_s_below_mono(statements[i], n, m); }
         }
         Statement::StatementExpression { value, .. } => { lemma_e_below_mono(value, n, m); }
+        _ => {}
+    }
+}
+
+/// shapes the type checker relies on without checking (its unreachable!/unwrap sites): a binary
+/// operation is never `Nop`, a constant index is an integer literal, an `if` has at least one branch
+pub open spec fn e_shape(e: Expression) -> bool decreases e {
+    match e {
+        Expression::Read { .. } => true,
+        Expression::Variant { value, .. } => e_shape(*value),
+        Expression::Call { function, args, .. } => e_shape(*function) && forall|i: int| 0 <= i < args.len() ==> e_shape(#[trigger] args[i]),
+        Expression::BlobAccess { value, .. } => e_shape(*value),
+        Expression::Index { value, index, .. } => e_shape(*value) && *index is Int,
+        Expression::BinOp { a, b, op, .. } => !(op is Nop) && e_shape(*a) && e_shape(*b),
+        Expression::UniOp { a, .. } => e_shape(*a),
+        Expression::If { branches, .. } => branches.len() > 0 && forall|i: int| 0 <= i < branches.len() ==> ib_shape(#[trigger] branches[i]),
+        Expression::Case { to_match, branches, fall_through, .. } => e_shape(*to_match)
+            && (forall|i: int| 0 <= i < branches.len() ==> cb_shape(#[trigger] branches[i]))
+            && (match fall_through { Some(b) => forall|i: int| 0 <= i < b.len() ==> s_shape(#[trigger] b[i]), None => true }),
+        Expression::Function { body, .. } => forall|i: int| 0 <= i < body.len() ==> s_shape(#[trigger] body[i]),
+        Expression::Blob { fields, .. } => forall|i: int| 0 <= i < fields.len() ==> e_shape((#[trigger] fields[i]).1),
+        Expression::Collection { values, .. } => forall|i: int| 0 <= i < values.len() ==> e_shape(#[trigger] values[i]),
+        Expression::Float(..) | Expression::Int(..) | Expression::Str(..) | Expression::Bool(..) | Expression::Nil(..) => true,
+    }
+}
+pub open spec fn ib_shape(b: IfBranch) -> bool decreases b {
+    (match b.condition { Some(c) => e_shape(c), None => true })
+    && forall|i: int| 0 <= i < b.body.len() ==> s_shape(#[trigger] b.body[i])
+}
+pub open spec fn cb_shape(b: CaseBranch) -> bool decreases b {
+    forall|i: int| 0 <= i < b.body.len() ==> s_shape(#[trigger] b.body[i])
+}
+pub open spec fn s_shape(s: Statement) -> bool decreases s {
+    match s {
+        Statement::Assignment { target, value, .. } => e_shape(target) && e_shape(value),
+        Statement::Blob { .. } | Statement::Enum { .. } | Statement::ExternalDefinition { .. } => true,
+        Statement::Definition { value, .. } => e_shape(value),
+        Statement::Loop { condition, body, .. } => e_shape(condition) && forall|i: int| 0 <= i < body.len() ==> s_shape(#[trigger] body[i]),
+        Statement::Break(_) | Statement::Continue(_) | Statement::Unreachable(_) => true,
+        Statement::Ret { value, .. } => match value { Some(v) => e_shape(v), None => true },
+        Statement::Block { statements, .. } => forall|i: int| 0 <= i < statements.len() ==> s_shape(#[trigger] statements[i]),
+        Statement::StatementExpression { value, .. } => e_shape(value),
+    }
+}
+/// the complete phase precondition of the type checker on a resolved tree
+pub open spec fn e_ok(e: Expression, n: int) -> bool { e_below(e, n) && e_nodecl(e) && e_shape(e) }
+pub open spec fn s_ok(s: Statement, n: int) -> bool { s_below(s, n) && s_nodecl(s) && s_shape(s) }
+pub open spec fn all_ok(ss: Seq<Statement>, n: int) -> bool { forall|i: int| 0 <= i < ss.len() ==> s_ok(#[trigger] ss[i], n) }
+
+/// one-level view of e_ok (non-recursive): what the children of a well-formed node satisfy. Functions
+/// with many arms hide the recursive predicates and use this through lemma_e_ok_children instead.
+pub open spec fn ib_ok(b: IfBranch, n: int) -> bool { (b.condition is Some ==> e_ok(b.condition->Some_0, n)) && all_ok(b.body@, n) }
+pub open spec fn cb_ok(b: CaseBranch, n: int) -> bool { (b.variable is Some ==> b.variable->Some_0 < n) && all_ok(b.body@, n) }
+pub open spec fn e_ok_children(e: Expression, n: int) -> bool {
+    match e {
+        Expression::Read { var, .. } => var < n,
+        Expression::Variant { ty, value, .. } => ty < n && e_ok(*value, n),
+        Expression::Call { function, args, .. } => e_ok(*function, n) && forall|i: int| 0 <= i < args@.len() ==> e_ok(#[trigger] args@[i], n),
+        Expression::BlobAccess { value, .. } => e_ok(*value, n),
+        Expression::Index { value, index, .. } => e_ok(*value, n) && e_ok(*index, n) && *index is Int,
+        Expression::BinOp { a, b, op, .. } => !(op is Nop) && e_ok(*a, n) && e_ok(*b, n),
+        Expression::UniOp { a, .. } => e_ok(*a, n),
+        Expression::If { branches, .. } => branches@.len() > 0 && forall|i: int| 0 <= i < branches@.len() ==> ib_ok(#[trigger] branches@[i], n),
+        Expression::Case { to_match, branches, fall_through, .. } => e_ok(*to_match, n)
+            && (forall|i: int| 0 <= i < branches@.len() ==> cb_ok(#[trigger] branches@[i], n))
+            && (fall_through is Some ==> all_ok(fall_through->Some_0@, n)),
+        Expression::Function { params, body, .. } => (forall|k: int| 0 <= k < params@.len() ==> (#[trigger] params@[k]).1 < n) && all_ok(body@, n),
+        Expression::Blob { blob, fields, self_var, .. } => blob < n && self_var < n && forall|i: int| 0 <= i < fields@.len() ==> e_ok((#[trigger] fields@[i]).1, n),
+        Expression::Collection { values, .. } => forall|i: int| 0 <= i < values@.len() ==> e_ok(#[trigger] values@[i], n),
+        Expression::Float(..) | Expression::Int(..) | Expression::Str(..) | Expression::Bool(..) | Expression::Nil(..) => true,
+    }
+}
+pub proof fn lemma_e_ok_children(e: Expression, n: int)
+    requires e_ok(e, n),
+    ensures e_ok_children(e, n),
+{
+    match e {
+        Expression::If { branches, .. } => {
+            assert forall|i: int| 0 <= i < branches@.len() implies ib_ok(#[trigger] branches@[i], n) by {
+                assert(ib_below(branches[i], n)); assert(ib_nodecl(branches[i])); assert(ib_shape(branches[i]));
+            }
+        }
+        Expression::Case { branches, fall_through, .. } => {
+            assert forall|i: int| 0 <= i < branches@.len() implies cb_ok(#[trigger] branches@[i], n) by {
+                assert(cb_below(branches[i], n)); assert(cb_nodecl(branches[i])); assert(cb_shape(branches[i]));
+            }
+        }
         _ => {}
     }
 }
